@@ -97,6 +97,10 @@ JudgeFit(e, O) ==
                   ELSE (IF c = NAN THEN HasNan(ft.vo) ELSE FirstLeaderGE(ft.vo, c).t = "grp"),
               "C08_training_value_not_covered")
          \cup Flag(e.dropped_untouched, "C08_dropped_feature_modified")
+         \* a quantitative group led by the missing-value marker holds nothing but missing values
+         \cup Flag(\A f \in DOMAIN O.feats :
+                      (O.feats[f].kind = "quanti" /\ NAN \in GLLeaders(O.feats[f].vo)) => GLMembers(O.feats[f].vo, NAN) = {NAN},
+                   "C08_quantile_in_missing_value_group")
          \cup OrderClauses(e, O))
 
 (* transform on object P (observed before), logged frame / outputs *)
